@@ -14,6 +14,7 @@ import (
 	"golang.org/x/exp/slices"
 
 	"github.com/thanos-community/promql-engine/execution/model"
+	"github.com/thanos-community/promql-engine/verifhook"
 )
 
 // vectorOperator evaluates an expression between two step vectors.
@@ -96,6 +97,7 @@ func (o *vectorOperator) initOutputs(ctx context.Context) error {
 	var highCardSide []labels.Labels
 	var errChan = make(chan error, 1)
 	go func() {
+		defer verifhook.Go("bin.init", 0)()
 		var err error
 		highCardSide, err = o.lhs.Series(ctx)
 		if err != nil {
@@ -111,6 +113,7 @@ func (o *vectorOperator) initOutputs(ctx context.Context) error {
 	if err := <-errChan; err != nil {
 		return err
 	}
+	verifhook.Yield("bin.init.joined")
 
 	o.lhSampleIDs = highCardSide
 	o.rhSampleIDs = lowCardSide
